@@ -139,6 +139,10 @@ static ABT_cond C0;
 static ABT_mutex CM0, CM1;
 static int c_tokens, c_holder, c_sigseq, c_sigdone, c_quota[MAX_ACTORS], c_role[MAX_ACTORS]; /* role 0 consumer 1 producer */
 static int c_to_produce, c_timeouts, c_okwaits, c_bound;
+/* family condq ("long queues"): producers hold a token back until several consumers are inside a wait, timed waits
+ * use staggered deadlines so that the head, middle nodes and the tail of a long wait-list time out while signals and
+ * further enqueues (timed and untimed, ULT and external) are interleaved */
+static int c_many, c_nwait, c_nconsumers_left, c_maxwait;
 
 #define CCALL(opname, extra, expr)                                             \
     ({                                                                         \
@@ -166,6 +170,15 @@ static void cond_body(actor *a)
     if (c_role[a->id] == 1) {
         /* producer: change the predicate under the mutex, then signal or broadcast */
         for (int r = 0; r < c_quota[a->id]; r++) {
+            if (c_many) {
+                int want = 2 + sc_rnd(5), patience = 60 + sc_rnd(240);
+                if (want > c_nconsumers_left)
+                    want = c_nconsumers_left;
+                while (c_nwait < want && patience-- > 0)
+                    relax(a);
+                for (int k = sc_rnd(4); k > 0; k--) /* let deadlines pass while the queue is long */
+                    relax(a);
+            }
             cm_lock(CM0, 0);
             VSA_CHECK(++c_holder == 1, "cond: mutex CM0 held by %d", c_holder);
             c_tokens++;
@@ -204,6 +217,8 @@ static void cond_body(actor *a)
             c_holder--;
             int timed = sc_rnd(2);
             int rc;
+            if (++c_nwait > c_maxwait)
+                c_maxwait = c_nwait;
             if (!timed) {
                 rc = CCALL("wait", "CM0", ABT_cond_wait(C0, CM0));
                 VSA_CHECK(rc == ABT_SUCCESS, "cond wait returned %d", rc);
@@ -211,6 +226,8 @@ static void cond_body(actor *a)
                 struct timespec ts;
                 clock_gettime(CLOCK_REALTIME, &ts);
                 long add = (long[]){ -1000, 0, 20000, 300000, 5000000 }[sc_rnd(5)]; /* ns: past, now, near, far */
+                if (c_many) /* staggered: a few clock reads apart, so that any position of the queue can expire first */
+                    add = (long[]){ 4000, 9000, 15000, 25000, 40000, 80000, 200000, 3000000 }[sc_rnd(8)];
                 ts.tv_nsec += add;
                 while (ts.tv_nsec < 0)
                     ts.tv_nsec += 1000000000L, ts.tv_sec--;
@@ -227,6 +244,7 @@ static void cond_body(actor *a)
                 }
             }
             VSA_CHECK(++c_holder == 1, "cond: wait returned without exclusive ownership of the mutex (%d holders)", c_holder);
+            c_nwait--;
             if (rc == ABT_SUCCESS) {
                 c_okwaits++;
                 VSA_CHECK(c_sigseq > seq, "cond: wait returned SUCCESS although every signal/broadcast issued so far had completed before it started (spurious wake-up)");
@@ -234,6 +252,8 @@ static void cond_body(actor *a)
         }
         c_tokens--;
         c_holder--;
+        if (r == c_quota[a->id] - 1)
+            c_nconsumers_left--;
         cm_unlock(CM0, 0);
         if (sc_rnd(2))
             relax(a);
@@ -252,8 +272,9 @@ static void cond_setup(int nact)
     /* roles: at least one producer and one consumer; tokens produced == tokens consumed */
     int total = 0, nprod = 0;
     for (int i = 0; i < nact; i++) {
-        c_role[i] = (i == 0) ? 1 : (i == 1 ? 0 : sc_rnd(3) == 0);
+        c_role[i] = (i == 0) ? 1 : (i == 1 ? 0 : sc_rnd(c_many ? 6 : 3) == 0);
         if (c_role[i] == 0) {
+            c_nconsumers_left++;
             c_quota[i] = 1 + sc_rnd(rounds);
             total += c_quota[i];
         } else
@@ -285,7 +306,8 @@ static void cond_setup(int nact)
 static void cond_teardown(void)
 {
     VSA_CHECK(c_tokens == 0 && c_holder == 0, "cond: %d tokens left, holder=%d", c_tokens, c_holder);
-    vs_note("cond stats okwaits=%d timeouts=%d", c_okwaits, c_timeouts);
+    VSA_CHECK(c_nwait == 0, "cond: %d consumers still counted inside a wait", c_nwait);
+    vs_note("cond stats okwaits=%d timeouts=%d maxwaiting=%d", c_okwaits, c_timeouts, c_maxwait);
     vs_unname(ABTI_cond_get_ptr(C0));
     ABT_OK(ABT_cond_free(&C0));
     ABT_OK(ABT_mutex_free(&CM0));
@@ -318,7 +340,8 @@ int main(int argc, char **argv)
         mutex_setup();
         body = mutex_body;
         teardown = mutex_teardown;
-    } else if (!strcmp(family, "cond")) {
+    } else if (!strcmp(family, "cond") || !strcmp(family, "condq")) {
+        c_many = !strcmp(family, "condq");
         if (nact < 2)
             nact = 2;
         cond_setup(nact);
